@@ -204,12 +204,44 @@ func (c *CCtx) Compile(x Expr) CVal {
 		}
 		lo, hi := c.Compile(n.Lo), c.Compile(n.Hi)
 		old, had := c.vars[n.Var]
+		if n.Expand {
+			l, err1 := strconv.Atoi(lo.T)
+			h, err2 := strconv.Atoi(hi.T)
+			if err1 != nil || err2 != nil || h-l > 64 {
+				panic("forall ... expand needs literal bounds at most 64 apart")
+			}
+			parts := []string{}
+			for k := l; k < h; k++ {
+				c.vars[n.Var] = CVal{T: strconv.Itoa(k), Sort: "Int"}
+				parts = append(parts, c.Compile(n.Body).T)
+			}
+			if had {
+				c.vars[n.Var] = old
+			} else {
+				delete(c.vars, n.Var)
+			}
+			op := "and"
+			if n.Exists {
+				op = "or"
+			}
+			if len(parts) == 0 {
+				return CVal{T: map[bool]string{false: "true", true: "false"}[n.Exists], Sort: "Bool"}
+			}
+			return CVal{T: "(" + op + " " + strings.Join(parts, " ") + ")", Sort: "Bool"}
+		}
 		c.vars[n.Var] = CVal{T: n.Var, Sort: "Int"}
 		body := c.Compile(n.Body)
+		trig := ""
+		if n.Trig != nil {
+			trig = c.Compile(n.Trig).T
+		}
 		if had {
 			c.vars[n.Var] = old
 		} else {
 			delete(c.vars, n.Var)
+		}
+		if trig != "" && !n.Exists {
+			return CVal{T: fmt.Sprintf("(forall ((%s Int)) (! (=> (and (<= %s %s) (< %s %s)) %s) :pattern (%s)))", n.Var, lo.T, n.Var, n.Var, hi.T, body.T, trig), Sort: "Bool"}
 		}
 		if n.Exists {
 			return CVal{T: fmt.Sprintf("(exists ((%s Int)) (and (<= %s %s) (< %s %s) %s))", n.Var, lo.T, n.Var, n.Var, hi.T, body.T), Sort: "Bool"}
@@ -503,6 +535,12 @@ func (c *CCtx) call(n Call) CVal {
 			bindFail("addr(%s): not an address-taken variable in scope", id.Name)
 		}
 		return CVal{T: c.e.val(c.st, b.X), Sort: "Int", GoT: b.X.Type()}
+	case "row": // row("HS__BitVec8", r): the backing array stored at reference r in the named slice heap
+		hn := n.Args[0].(StrLit).V
+		if _, ok := c.e.sorts.heaps[hn]; !ok {
+			bindFail("row: unknown heap %s", hn)
+		}
+		return CVal{T: fmt.Sprintf("(select %s %s)", c.heap(hn), arg(1).T), Sort: "?"}
 	case "maplen": // number of keys of a map
 		m := arg(0)
 		return CVal{T: fmt.Sprintf("(select %s %s)", c.heap(c.e.sorts.HeapMapLen()), m.T), Sort: "Int"}
@@ -616,6 +654,13 @@ func (c *CCtx) call(n Call) CVal {
 		}
 		parts := strings.SplitN(t, "\x01", 2)
 		return CVal{T: parts[1], Sort: parts[0]}
+	case "callarg": // callarg("callee", k, i): the i-th argument of the k-th call to callee on this path (interface arguments keep their static box)
+		key := fmt.Sprintf("arg:%s#%s.%s", c.calleeKey(n.Args[0].(StrLit).V), n.Args[1].(IntLit).V, n.Args[2].(IntLit).V)
+		t, ok := c.st.snaps[key]
+		if !ok {
+			bindFail("callarg: %s does not exist on this path", key)
+		}
+		return CVal{T: t, Sort: "?"}
 	case "called": // called("callee", k): the k-th call to callee happened on this path
 		key := fmt.Sprintf("res:%s#%s.0", c.calleeKey(n.Args[0].(StrLit).V), n.Args[1].(IntLit).V)
 		_, ok := c.st.snaps[key]
